@@ -427,6 +427,10 @@ func toF(v interface{}) float64 {
 	return math.NaN()
 }
 
+// refMaxTie: the largest number of points sharing the instant first/last had
+// to choose at, over all groups of the statement being evaluated.
+var refMaxTie int
+
 // aggregate computes fn over the points of one window (ascending by time).
 // ok=false: no value (empty window). selT: the time of the selected point for
 // selectors.
@@ -466,9 +470,24 @@ func aggregate(fn string, pts []rp) (v interface{}, selT int64, ok bool) {
 			}
 		}
 		return best.v, best.t, true
-	case "first":
-		return pts[0].v, pts[0].t, true
-	case "last":
+	case "first", "last":
+		at := pts[0].t
+		if fn == "last" {
+			at = pts[len(pts)-1].t
+		}
+		// how many points (of different series) share the chosen instant
+		n := 0
+		for _, p := range pts {
+			if p.t == at {
+				n++
+			}
+		}
+		if n > refMaxTie {
+			refMaxTie = n
+		}
+		if fn == "first" {
+			return pts[0].v, pts[0].t, true
+		}
 		return pts[len(pts)-1].v, pts[len(pts)-1].t, true
 	case "spread":
 		lo, hi := pts[0], pts[0]
@@ -909,7 +928,9 @@ func exec(run *core.Run, pl interface{}) {
 	stmt := p.Stmt.text()
 	run.Logf("statement: %s", stmt)
 	data := logical(p.Points)
+	refMaxTie = 0
 	want := reference(data, &p.Stmt)
+	maxTie := refMaxTie
 	// (0) one node, one shard, cache only, one batch
 	l0 := layout{Nodes: 1, RF: 1, Coord: 1, SGHours: 4, Index: "inmem", Batches: []int{len(p.Points)}, Ops: []storageOp{{Kind: "none"}}}
 	got0, err0, ok := runLayout(run, "L0", &l0, p.Points, stmt, false)
@@ -942,6 +963,15 @@ func exec(run *core.Run, pl interface{}) {
 		// (tsm1 Engine.createVarRefIterator/createCallIterator: LimitTagSets),
 		// not to the series of the result
 		run.Fail("result-depends-on-layout", "slimit-applied-per-shard", "%s\n single shard, cache only:\n%s\n layout A (%s):\n%s\n layout B (%s):\n%s", stmt, got0, desc(&p.A), gotA, desc(&p.B), gotB)
+		return
+	}
+	if (gotA != got0 || gotB != got0) && p.Ties && (p.Stmt.Fn == "first" || p.Stmt.Fn == "last") && p.Stmt.GTime == 0 && maxTie >= 3 {
+		// first/last without GROUP BY time are answered inside a shard by a
+		// field iterator limited to LIMIT+1 points per series merge (tsm1
+		// Engine.CreateIterator's optimisation): of three or more points of
+		// the chosen instant only the first two in series order reach the
+		// reducer there, while across shards every shard contributes
+		run.Fail("result-depends-on-layout", "first-last-among-three-or-more-points-of-equal-time", "%s (%d series hold a point at the chosen instant)\n single shard, cache only:\n%s\n layout A (%s):\n%s\n layout B (%s):\n%s", stmt, maxTie, got0, desc(&p.A), gotA, desc(&p.B), gotB)
 		return
 	}
 	if gotA != got0 {
